@@ -17,6 +17,7 @@ class Resolved:
     def __init__(self):
         self.toks = []       # without the final EOF token
         self.errors = []
+        self.error_spans = []   # per error: (lowest, highest) line a report may carry: include keyword .. end of the token after it
         self.requests = []
         self.inclusions = []  # (includer, line, target) of every performed splice
         self.malformed = False  # an include without file name occurred (following token not judged)
@@ -27,6 +28,7 @@ def resolve(files, main, tokenizer=L.tokenize, limit=2000000):
     r = Resolved()
     if main not in files:
         r.errors.append((MAIN_FILE_NOT_FOUND, "-", -1, main))
+        r.error_spans.append((-1, -1))
         r.requests.append(main)
         return r
     cache = {}
@@ -46,6 +48,7 @@ def resolve(files, main, tokenizer=L.tokenize, limit=2000000):
                 if i + 1 >= n or ts[i + 1][0] != L.FNAME:
                     line = ts[i + 1][2] if i + 1 < n else l
                     r.errors.append((EXPECTED_FILENAME, name, line, ""))
+                    r.error_spans.append((l, line))
                     if i + 1 < n:
                         r.malformed = True   # a token follows the directive inside this file: what happens to it is not judged
                     i += 2
@@ -54,9 +57,11 @@ def resolve(files, main, tokenizer=L.tokenize, limit=2000000):
                 ln = ts[i + 1][2]
                 if fn not in files:
                     r.errors.append((FILE_NOT_FOUND, name, ln, fn))
+                    r.error_spans.append((l, ln))
                     r.requests.append(fn)
                 elif fn in active:
                     r.errors.append((RECURSIVE_INCLUDE, name, ln, ""))
+                    r.error_spans.append((l, ln))
                 else:
                     r.inclusions.append((name, ln, fn))
                     scanfile(fn, active + [fn])
